@@ -33,7 +33,7 @@ RULE = ("Exhaustive enumeration (no random choice): (A) all 2^7 presence pattern
         "group (the accept/reject boundary) - all are counted; distinct by the case itself.")
 ASSUMPTIONS = ["the reference predicate below is a faithful transcription of the property text",
                "remote sources are exercised with file:// URLs and an in-process SPARQL endpoint (no network)"]
-BUDGET = {"quick": {"examples": 0, "wall": 240}, "thorough": {"examples": 0, "wall": 3000}}
+BUDGET = {"quick": {"examples": 0, "wall": 240}, "thorough": {"examples": 0, "wall": 1200}}
 EXHAUSTIVE = {"quick": True, "thorough": True}
 FLOORS = {"nontrivial": 0.2, "expected:accept": 0.05, "expected:reject": 0.3}
 SURVEY = bool(os.environ.get("VF_C20_SURVEY"))
